@@ -52,7 +52,8 @@ void MarkStackDead(const void* frame);
 
 // Give a stable name to an atomic / lock / condvar object (exact address).
 // operator new never hands out an address twice (see vrt.cpp); used by the reproducibility runs
-void SetNoReuseHeap(bool on);
+// descending: later blocks get lower addresses (an address-ordered decision sees the opposite order)
+void SetNoReuseHeap(bool on, bool descending = false);
 void NameField(const void* addr, const std::string& name);
 // Give a stable name to a memory range; fields inside are reported as name+offset, pointers into it as @name.
 void NameRange(const void* addr, std::size_t size, const std::string& name);
